@@ -433,8 +433,13 @@ def h_limits():
             eff[k] = v
         else:
             eff[k] = dv
-    assume(And(eff["min_write_sz"] < eff["max_write_sz"], eff["min_part"] < eff["max_part"]))
-    sink = MPUFileSink("/tmp/vf-dst.bin", **kw)
+    consistent = And(eff["min_write_sz"] < eff["max_write_sz"], eff["min_part"] < eff["max_part"])
+    try:
+        sink = MPUFileSink("/tmp/vf-dst.bin", **kw)
+    except ValueError:
+        # a contradictory configuration may be refused -- never a consistent one
+        prove("only_contradictory_limits_are_refused", Not(consistent))
+        return
     for k in defaults:
         prove(f"{k}_is_configured_or_default", getattr(sink, k) == eff[k])
     prove("max_write_above_min", sink.max_write_sz > sink.min_write_sz)
@@ -456,6 +461,7 @@ class FakeFS:
         self.files = {}
         self.dirs = {"/", "/out", "/scratch"}
         self.log = []
+        self.two_devices = False  # /scratch on another file system than /out
 
 
 class FPath:
@@ -506,12 +512,17 @@ class FPath:
             self.fs.dirs.add(q.p)
             q = q.parent
 
+    def _dev(self):
+        return 2 if (self.p + "/").startswith("/scratch/") and self.fs.two_devices else 1
+
     def rename(self, dst):
         dst = FPath(dst)
         if self.p not in self.fs.files:
             raise FileNotFoundError(self.p)
         if dst.parent.p not in self.fs.dirs:
             raise FileNotFoundError(dst.p)
+        if self._dev() != dst._dev():
+            raise OSError(18, "Invalid cross-device link", self.p)
         self.fs.files[dst.p] = self.fs.files.pop(self.p)
         return dst
 
@@ -583,6 +594,41 @@ class _MmapMod:
     mmap = FMmap
 
 
+class _ShutilMod:
+    """shutil on the fake file system: move() works across devices (copy + delete)"""
+
+    @staticmethod
+    def move(src, dst):
+        src, dst = FPath(src), FPath(dst)
+        fs = FPath.fs
+        if src.p not in fs.files:
+            raise FileNotFoundError(src.p)
+        if dst.parent.p not in fs.dirs:
+            raise FileNotFoundError(dst.p)
+        fs.files[dst.p] = fs.files.pop(src.p)
+        return dst
+
+    @staticmethod
+    def copyfileobj(src, dst, length=0):
+        dst.write(src.fs.files[src.p])
+
+
+class _StatResult:
+    def __init__(self, size):
+        self.st_size = size
+
+
+def _fpath_stat(self):
+    from .c06 import s_len
+
+    if self.p not in self.fs.files:
+        raise FileNotFoundError(self.p)
+    return _StatResult(s_len(self.fs.files[self.p]))
+
+
+FPath.stat = _fpath_stat
+
+
 def setup_sink():
     if symx.concrete_mode():
         return
@@ -593,6 +639,7 @@ def setup_sink():
     fsm.Path = FPath
     fsm.open = lambda p, mode="r": FFile(FPath.fs, p, mode)
     fsm.mmap = _MmapMod
+    fsm.shutil = _ShutilMod
     fsm.len = lambda x: s_len(x.seg) if isinstance(x, FMmap) else s_len(x)
     shims.instrument(fsm, names=["isinstance"], scan=False)
 
@@ -604,7 +651,7 @@ def h_sink_finalise(nparts, parts_base, keep_parts):
     from .c06 import Seg
 
     conc = symx.concrete_mode()
-    sizes = [Int(f"size{k}", 0 if k == 0 else 1) for k in range(nparts)]
+    sizes = [Int(f"size{k}", 0) for k in range(nparts)]  # empty parts included
     # ids: an arbitrary injective assignment (the order GIVEN to finalise is what counts)
     ids = [Int(f"id{k}", 1, 9999) for k in range(nparts)]
     for a, b in itertools.combinations(ids, 2):
@@ -615,16 +662,23 @@ def h_sink_finalise(nparts, parts_base, keep_parts):
         import tempfile
 
         root = tempfile.mkdtemp(prefix="vf-sink-")
+        scratch = root + "/scratch"
+        other_fs = None
+        if parts_base and Bool("parts_dir_on_another_file_system"):
+            # a second real file system, when the machine has one that is writable
+            if os.path.isdir("/dev/shm") and os.access("/dev/shm", os.W_OK) and os.stat("/dev/shm").st_dev != os.stat(root).st_dev:
+                other_fs = tempfile.mkdtemp(prefix="vf-sink-", dir="/dev/shm")
+                scratch = other_fs
         try:
             os.makedirs(root + "/out")
-            os.makedirs(root + "/scratch")
+            os.makedirs(scratch, exist_ok=True)
             dst = root + "/out/result.tif"
-            sink = fsm.MPUFileSink(dst, parts_base=(root + "/scratch") if parts_base else None)
+            sink = fsm.MPUFileSink(dst, parts_base=scratch if parts_base else None)
             blobs = [bytes(((k + 1) * 41 + i) % 251 for i in range(sizes[k])) for k in range(nparts)]
             receipts = [sink(ids[k], blobs[k]) for k in range(nparts)]
             out = sink.finalise(receipts, keep_parts=keep_parts)
             prove("destination_is_concatenation_in_given_order", open(dst, "rb").read() == b"".join(blobs))
-            pdir = (root + "/scratch" if parts_base else root + "/out") + "/.result.tif.parts"
+            pdir = (scratch if parts_base else root + "/out") + "/.result.tif.parts"
             if keep_parts:
                 prove("parts_kept", os.path.isdir(pdir))
             else:
@@ -632,8 +686,11 @@ def h_sink_finalise(nparts, parts_base, keep_parts):
             prove("returns_destination", str(out) == dst)
         finally:
             shutil.rmtree(root, ignore_errors=True)
+            if other_fs:
+                shutil.rmtree(other_fs, ignore_errors=True)
         return
     fs = FakeFS()
+    fs.two_devices = bool(parts_base) and bool(Bool("parts_dir_on_another_file_system"))  # forks
     FPath.fs = fs
     dst = "/out/result.tif"
     sink = fsm.MPUFileSink(dst, parts_base="/scratch" if parts_base else None)
